@@ -19,6 +19,7 @@ RULE = (
     "current set (count > 0 iff in the set) and all peers agree."
     " Family bad-frame-then-subscribe: a peer's stream fails in the decoder (malformed frame) while others are healthy, then subscribe/unsubscribe follow: the failed peer's connection is released entirely (both halves) and the others are told every change."
     " Family transient-announce: a transient write error (Interrupted, TimedOut, WouldBlock) on ONE of two peers while change #k of two histories is announced: the victim stays a peer and, once later changes have been written to it, it has been told each change exactly once — both peers agree with the socket's set on every topic."
+    ' Family same-identity-joiner: a second connection announces the identity of a connection that is still registered (open, or closed but unnoticed) at every position of two histories: the connection that is the peer from then on (the one SUB reads from — a message sent on it is received) is told the set at its join and every later change.'
 )
 ASSUMPTIONS = ["the set re-announced to a late joiner comes out of a HashSet: compared as a multiset of messages, not as a byte order"]
 TRUSTED = ["scc::HashMap iteration visits every registered peer exactly once"]
@@ -77,6 +78,35 @@ def transient_case(hist, at, victim, kind, n):
     return c
 
 
+def same_identity_case(hist, at, old_state, n):
+    """two connections announce the SAME identity to one SUB (a publisher that reconnects before its old connection's end was
+    noticed; two publishers configured alike): the second joins at position `at` of the history.  The connection that is
+    the peer from then on — the one SUB reads from — is told the set at its join and every later change"""
+    sc = wg.Script()
+    sc.sock(1, "SUB")
+    sc.attach(1, 1, "PUB", b"same")
+    sc.add("wire 1")
+    joined = False
+    for pos in range(len(hist) + 1):
+        if pos == at:
+            if old_state == "eof":
+                sc.add("eof 1")
+            sc.attach(1, 2, "PUB", b"same")
+            sc.add("wire 2")
+            joined = True
+        if pos < len(hist):
+            add_op(sc, hist[pos])
+            sc.add("wire 1")
+            if joined:
+                sc.add("wire 2")
+    sc.reveal_msg(2, [b"live"])
+    f = sc.fut()
+    sc.add(f"recv {f} 1", f"poll {f}", f"poll {f}", f"drop {f}", "wire 2")
+    c = sc.case(f"same-identity-joiner-{old_state}#{n}", ["same-identity-joiner"])
+    c.expect = ("agree", hist, [2])
+    return c
+
+
 def stalled_case(hist, at, victim, credit, n):
     """two early peers; during the `at`-th call of the history peer `victim`'s connection accepts only `credit` bytes
     (ordinary back-pressure, not a failure): the call waits, the connection becomes writable again, the call completes —
@@ -121,6 +151,12 @@ def race_case(first, second, n):
 
 def cases(tier, rng):
     out = gen.corpus(ID)
+    sn = 960000
+    for hist in ([("sub", b"a"), ("sub", b"b"), ("unsub", b"a")], [("sub", b"a"), ("unsub", b"a"), ("sub", b"b"), ("sub", b"z")]):
+        for at in range(len(hist)):
+            for old_state in ("open", "eof"):
+                out.append(same_identity_case(hist, at, old_state, sn))
+                sn += 1
     tn = 940000
     for hist in ([("sub", b"a"), ("sub", b"b"), ("unsub", b"a"), ("sub", b"z")],
                  [("sub", b"a"), ("unsub", b"a"), ("sub", b"a"), ("unsub", b"a"), ("sub", b"b")]):
